@@ -2,6 +2,7 @@
 Coq model on the same inputs, byte for byte on the -fmt noop output."""
 import json
 import os
+import re
 
 from . import common as C
 
@@ -34,7 +35,36 @@ def obs_term(o):
     return None
 
 
-def case_term(o):
+def squeeze(s):
+    return re.sub(r"[ \t\n;]", "", s)
+
+
+def projection(fx):
+    """the structure of a generated file, from `vh facts` (must mirror L2Check.proj_data)"""
+    if not fx or fx.get("parse_error"):
+        return ""
+    out = ["pkg " + (fx.get("pkg_name") or "")]
+    for i in fx.get("imports") or []:
+        out.append("imp %s %s" % (i["name"], i["type"]))
+    for m in fx.get("mocks") or []:
+        out.append("mock " + m["name"])
+        for t in m.get("tparams") or []:
+            out.append("tp %s %s" % (t["name"], squeeze(t["type"])))
+        meths = {mm["name"]: mm for mm in (m.get("methods") or [])}
+        for fn in m.get("func_order") or []:
+            x = fn[:-4] if fn.endswith("Func") else fn
+            out.append("m " + x)
+            mm = meths.get(x)
+            if mm is None:
+                continue
+            for q in mm.get("params") or []:
+                out.append("p %s %s" % (q["name"], squeeze(q["type"])))
+            for q in mm.get("results") or []:
+                out.append("r " + squeeze(q["type"]))
+    return "\n".join(out) + "\n"
+
+
+def case_term(o, fx=None):
     if not o.get("input") or o.get("unsupported"):
         return None
     if o["kind"] == "err" and o["text"].startswith("new: "):
@@ -44,14 +74,18 @@ def case_term(o):
         return None
     if not all(ord(ch) < 127 for ch in o["text"]):
         return None
-    return "(mkCase %s %s %s %s %s)" % (C.coq_str(o["id"]), o["input"], o["config"], o["args"], t)
+    proj = projection(fx) if o["kind"] == "out" else ""
+    if not all(ord(ch) < 127 for ch in proj):
+        proj = ""
+    return "(mkCase %s %s %s %s %s %s)" % (C.coq_str(o["id"]), o["input"], o["config"], o["args"], t,
+                                         C.coq_str(proj))
 
 
-def evaluate(obs, name="l2"):
+def evaluate(obs, name="l2", facts=None):
     items, ids = [], []
     skipped = {}
     for o in obs:
-        t = case_term(o)
+        t = case_term(o, (facts or {}).get(o["id"]))
         if t is None:
             reason = o.get("unsupported") or ("load error" if o["kind"] == "err" else o["kind"])
             skipped[o["id"]] = reason
